@@ -40,7 +40,8 @@ func init() {
 }
 
 type batchResult struct {
-	parts  [][]byte
+	parts  [][]byte // deep copy taken at return
+	live   [][]byte // what Build returned: the caller's from then on
 	coding string
 	err    bool
 }
@@ -240,12 +241,18 @@ func runBatch(r *core.Run) {
 				for _, p := range parts {
 					res.parts = append(res.parts, append([]byte(nil), p...))
 				}
+				res.live = parts
 				if coding != nil {
 					res.coding = fmt.Sprintf("%d", int(reflectInt(coding)))
 				}
 			}
 			results[k] = res
 			r.Event("build %d -> %s", k, res)
+			// another, unrelated request in between (a gateway serves many senders)
+			if c.Prob(1, 2) {
+				other := protocol.NewBatchDataCodingEncoder().Protocol(map[bool]protocol.Protocol{true: protocol.SMPP, false: protocol.CMPP}[isSMPP]).Content("hello "+text[:min(len(text), 7)], ref+1).DataCodings(dcs)
+				r.Call("BatchDataCodingEncoder.Build", func() { _, _, _ = other.Build(ctx) })
+			}
 		}
 	})
 	s.Go("hammer", func() {
@@ -271,6 +278,20 @@ func runBatch(r *core.Run) {
 	}
 
 	// ---------------- oracles
+	// results own their memory: what an earlier Build returned is unchanged after the later Builds
+	for k := 0; k < K; k++ {
+		if results[k].err {
+			continue
+		}
+		same := len(results[k].live) == len(results[k].parts)
+		for i := 0; same && i < len(results[k].parts); i++ {
+			same = string(results[k].live[i]) == string(results[k].parts[i])
+		}
+		if !same {
+			r.Fail("C09", "result-changed-later", protoName(isSMPP), "retained", "the parts returned by Build %d of %d changed after later Build calls", k+1, K)
+			return
+		}
+	}
 	for k := 1; k < K; k++ {
 		if !sameResult(results[0], results[k]) {
 			r.Fail("C09", "nondeterministic", protoName(isSMPP), "result", "the same request gave %s and then %s under another candidate order / schedule", results[0], results[k])
